@@ -839,6 +839,8 @@ class Engine:
         try:
             if self.call_log is not None: self.call_log.add(path)
             f = self.resolve(path)
+            hk = self.hooks.get('call')
+            if hk: hk(path, f, args)
             if f is not None:
                 if f.nargs == 1 and len(args) == 1 and args[0].__class__ is IntV and not args[0].conc() \
                         and args[0].v.var is not None and f.ret_ty == 'bool' and args[0].w == 8:
